@@ -233,6 +233,7 @@ class Binding(object):
         self.wrap = wrap          # optional: (typename, fieldname, thunk, info) -> value (deferred execution)
         self.calls = []           # (typename, fieldname, oid, kwargs)
         self.async_fields = set() # (typename, fieldname) served by coroutine resolvers
+        self.submit_fields = set()  # (typename, fieldname) whose resolver hands its work to info.runtime.submit()
         self.gates = None         # sched.Gates of the current asyncio run
         self._py = {}
         for t in self.s.types.values():
@@ -284,12 +285,17 @@ class Binding(object):
             return None
         f = self.s.types[typename].field(fieldname)
         binding = self
+        submits = (typename, fieldname) in self.submit_fields
 
         def resolver(parent, context, info, **kwargs):
             obj = binding.obj_of(parent)
             if binding.log is not None:
                 binding.log({"ev": "resolver_start", "type": typename, "field": fieldname,
                              "path": list(info.path), "kwargs": kwargs})
+            if submits:
+                # the resolver's own result is whatever the runtime hands back for a submitted task
+                # (a value, a concurrent future, an asyncio future)
+                return info.runtime.submit(lambda: binding._finish(obj, f, kwargs, info))
             if binding.wrap is not None:
                 return binding.wrap(typename, fieldname, lambda: binding._finish(obj, f, kwargs, info), info)
             return binding._finish(obj, f, kwargs, info)
@@ -300,6 +306,8 @@ class Binding(object):
                 binding.log({"ev": "resolver_start", "type": typename, "field": fieldname,
                              "path": list(info.path), "kwargs": kwargs})
             await binding.gates.wait(tuple(info.path))
+            if submits:
+                return info.runtime.submit(lambda: binding._finish(obj, f, kwargs, info))
             return binding._finish(obj, f, kwargs, info)
 
         if (typename, fieldname) in self.async_fields:
